@@ -265,3 +265,43 @@ Section LoopFacts.
       + destruct fixed; discriminate.
   Qed.
 End LoopFacts.
+
+(* ------------------------------------------------------------ state between calls *)
+(* The only thing a selector object carries from one select() call to the next is the position of its RandomState,
+   i.e. which bootstrap draws [bags] the next call sees.  Without bagging the draws are never looked at: the result is a
+   function of the call's own inputs, whatever happened before. *)
+Lemma masked_nobag o sel bag bag' i : o_bag o = false -> masked o sel bag i = masked o sel bag' i.
+Proof. intros H. unfold masked. rewrite H. reflexivity. Qed.
+
+Lemma mask_cands_nobag o sel bag bag' cand : o_bag o = false -> mask_cands o sel bag cand = mask_cands o sel bag' cand.
+Proof.
+  intros H. unfold mask_cands. apply map_ext. intros p. rewrite (masked_nobag o sel bag bag' (fst p) H). reflexivity.
+Qed.
+
+Lemma step_nobag o n sel lmin bag bag' cand : o_bag o = false -> step o n sel lmin bag cand = step o n sel lmin bag' cand.
+Proof. intros H. unfold step. rewrite (mask_cands_nobag o sel bag bag' cand H). reflexivity. Qed.
+
+Lemma loop_nobag fixed o n L bags bags' : o_bag o = false -> forall fuel it it' sel lmin,
+  (o_maxit o = None \/ it = it') ->
+  loop fixed o n L bags fuel it sel lmin = loop fixed o n L bags' fuel it' sel lmin.
+Proof.
+  intros H. induction fuel as [|f IH]; intros it it' sel lmin Hit; [reflexivity|]. cbn [loop].
+  assert (Hc : cont fixed o n sel it = cont fixed o n sel it').
+  { destruct Hit as [Hm| ->]; [|reflexivity]. unfold cont. rewrite Hm. reflexivity. }
+  rewrite Hc, (step_nobag o n sel lmin (bags it) (bags' it') _ H).
+  destruct (cont fixed o n sel it'); [|reflexivity].
+  destruct (step o n sel lmin (bags' it') (cands n L sel)); try reflexivity.
+  apply IH. destruct Hit as [Hm| ->]; [left; exact Hm|right; reflexivity].
+Qed.
+
+(* with bagging, a call that starts [off] draws into the stream is the call on the shifted stream *)
+Lemma loop_shift fixed o n L bags off : forall fuel it sel lmin,
+  o_maxit o = None ->
+  loop fixed o n L bags fuel (off + it) sel lmin = loop fixed o n L (fun j => bags (off + j)) fuel it sel lmin.
+Proof.
+  intros fuel it sel lmin Hm. revert it sel lmin. induction fuel as [|f IH]; intros it sel lmin; [reflexivity|]. cbn [loop].
+  assert (Hc : cont fixed o n sel (off + it) = cont fixed o n sel it) by (unfold cont; rewrite Hm; reflexivity).
+  rewrite Hc. destruct (cont fixed o n sel it); [|reflexivity].
+  destruct (step o n sel lmin (bags (off + it)) (cands n L sel)); try reflexivity.
+  replace (S (off + it)) with (off + S it) by lia. apply IH.
+Qed.
